@@ -8,6 +8,7 @@ import (
 	"errors"
 	"fmt"
 	"sort"
+	"strings"
 
 	"verifharness/sched"
 	"verifharness/trace"
@@ -25,6 +26,14 @@ import (
 //	        (errch: val|nil|close, cancelch: close|send)
 //
 // e is "nil" | "E" | "C" (context.Canceled). Result values are >= 1 and unique.
+//
+// tc / tf (set, cset, setp; generated scenarios only, absent in the scenario files shared with the X
+// spec): right after the call has returned the SAME client goroutine cancels the context / fires the
+// channel of the await that client tc / tf has in flight ("p.SetResult(v, nil); cancel()"). The awaiter
+// was already woken through the done / replacement channel and runs only afterwards: it comes out of
+// its select through the result (or wait) channel with its context already cancelled. No controller
+// move can order the two that way (a combined "grant & cancel" step cancels before the granted
+// goroutine runs, so the awaiter is woken by ctx.Done first).
 type prOp struct {
 	Op   string `json:"op"`
 	Q    int    `json:"q"`
@@ -33,6 +42,8 @@ type prOp struct {
 	Kind string `json:"kind"`
 	C    bool   `json:"c"`
 	F    string `json:"f"`
+	Tc   int    `json:"tc,omitempty"`
+	Tf   int    `json:"tf,omitempty"`
 }
 
 type prProm struct {
@@ -165,6 +176,35 @@ func genPromise(x *sched.Exec) prScenario {
 		}
 		sc.Clients = append(sc.Clients, prog)
 	}
+	// a third of the scenarios: some set / cset / setp calls are followed at once (same goroutine) by the
+	// cancellation / channel firing of another client's await (see prOp)
+	if r.Intn(3) == 0 {
+		var aw []int // clients that await at all
+		for i, prog := range sc.Clients {
+			for _, o := range prog {
+				if o.Op == "await" {
+					aw = append(aw, i+1)
+					break
+				}
+			}
+		}
+		for i, prog := range sc.Clients {
+			for j := range prog {
+				if prog[j].Op == "await" || len(aw) == 0 || r.Intn(2) == 0 {
+					continue
+				}
+				t := aw[r.Intn(len(aw))]
+				if t == i+1 {
+					continue
+				}
+				if r.Intn(3) == 0 {
+					prog[j].Tf = t
+				} else {
+					prog[j].Tc = t
+				}
+			}
+		}
+	}
 	return sc
 }
 
@@ -209,6 +249,21 @@ func (d *prDriver) guard(c *prClient, id int, f func()) (ok bool) {
 	return true
 }
 
+// then performs op's tc / tf action (see prOp); called on the client goroutine right after its
+// set / cset / setp call has returned, before anything it woke has run.
+func (d *prDriver) then(op prOp) {
+	if op.Tc > 0 && op.Tc <= len(d.cl) {
+		if t := d.cl[op.Tc-1]; t.inflight != 0 && t.await && !t.canc {
+			d.doCancel(t)
+		}
+	}
+	if op.Tf > 0 && op.Tf <= len(d.cl) {
+		if t := d.cl[op.Tf-1]; t.inflight != 0 && t.await && t.op.Kind != "await" && t.op.F != "" && !t.fired {
+			d.doFire(t)
+		}
+	}
+}
+
 func (d *prDriver) opFunc(c *prClient, pi int, op prOp) sched.Op {
 	x := d.x
 	label := "call:" + c.c.Name
@@ -227,6 +282,7 @@ func (d *prDriver) opFunc(c *prClient, pi int, op prOp) sched.Op {
 			if !d.guard(c, id, func() { ok = d.proms[op.Q-1].SetResult(op.V, prErr(op.E)) }) {
 				return
 			}
+			d.then(op)
 			c.inflight = 0
 			x.Log(trace.E{"ev": "ret", "id": id, "xid": xid, "op": "set", "ok": ok, "actor": c.c.Name})
 		}}
@@ -239,6 +295,7 @@ func (d *prDriver) opFunc(c *prClient, pi int, op prOp) sched.Op {
 			if !d.guard(c, id, func() { ok = d.cont.SetResult(op.V, prErr(op.E)) }) {
 				return
 			}
+			d.then(op)
 			c.inflight = 0
 			x.Log(trace.E{"ev": "ret", "id": id, "xid": xid, "op": "cset", "ok": ok, "actor": c.c.Name})
 		}}
@@ -254,6 +311,7 @@ func (d *prDriver) opFunc(c *prClient, pi int, op prOp) sched.Op {
 			if !d.guard(c, id, func() { d.cont.SetPromise(pl) }) {
 				return
 			}
+			d.then(op)
 			c.inflight = 0
 			x.Log(trace.E{"ev": "ret", "id": id, "xid": xid, "op": "setp", "ok": true, "actor": c.c.Name})
 		}}
@@ -322,7 +380,17 @@ func (d *prDriver) doFire(c *prClient) {
 
 func (d *prDriver) Run(x *sched.Exec, raw json.RawMessage) json.RawMessage {
 	d.x = x
-	x.OptDouble, x.OptParkUnl = true, true
+	// PromiseP reads the logged calls and returns as bounds on the atomic steps / critical sections
+	// (PromiseP.tla, B1-B5) and is told the granularity of each execution, so the scheduler refinements
+	// are sound here: combined grant+cancel/fire steps (sched.Exec.Double: the only way a plain
+	// Promise.Await* is WOKEN with result and cancellation both ready) and park points at the END of
+	// critical sections (ParkUnl: a container awaiter stops between its sampling section and its
+	// select). "-opt coarse" switches both off (to compare detection with and without them).
+	if !strings.Contains(Opt, "coarse") {
+		x.OptDouble, x.OptParkUnl = true, true
+	}
+	// fine: verifhook.Unlocked parks in this execution (mirrors sched.Exec.parkUnlActive; erring towards
+	// true only weakens the monitor: `late` is then not applied)
 	fine := x.OptParkUnl && !x.LogSteps && x.ParkUnl
 	if len(x.Sched) > 0 {
 		fine = x.OptParkUnl && !x.LogSteps && x.Sched[0] == "!parkunl"
